@@ -150,7 +150,9 @@ func (c *Criteria) Add(criterion *Criterion) Criteria {
 			panic(fmt.Errorf("cannot add criterion '%v' - already exists in criteria: %v", *criterion, *c))
 		}
 	}
-	return append(*c, *criterion)
+	result := make(Criteria, len(*c), len(*c)+1)
+	copy(result, *c)
+	return append(result, *criterion)
 }
 
 type WeightedCriterion struct {
